@@ -12,22 +12,13 @@
      CvErr     convert_to_object raises (e.g. char32_t beyond 0x10FFFF, a _Bool byte > 1). *)
 From Coq Require Import ZArith List Bool Lia.
 Import ListNotations.
+From Cffi Require Export C17.Cmp C17.Gen.
 Open Scope Z_scope.
-
-Inductive cmpop := OLt | OLe | OEq | ONe | OGt | OGe.
-Definition swap (o : cmpop) : cmpop :=
-  match o with OLt => OGt | OLe => OGe | OEq => OEq | ONe => ONe | OGt => OLt | OGe => OLe end.
 
 Inductive exn := TypeError | NotImplementedError | ConvError.
 Inductive res := RBool (b : bool) | RErr (e : exn).           (* outcome of  a <op> b  *)
 Inductive slotres := SBool (b : bool) | SNotImpl | SErr (e : exn).  (* outcome of one tp_richcompare *)
 Inductive hres := HOk (h : Z) | HErr (e : exn).
-
-Definition zcmp (o : cmpop) (a b : Z) : bool :=
-  match o with
-  | OLt => a <? b | OLe => a <=? b | OEq => a =? b
-  | ONe => negb (a =? b) | OGt => b <? a | OGe => b <=? a
-  end.
 
 (* _Py_HashPointer (CPython < 3.13, 64-bit): rotate right by 4, read as signed, -1 -> -2 *)
 Definition hash_pointer (p : Z) : Z :=
@@ -65,7 +56,8 @@ Definition slot_of_res (r : res) : slotres := match r with RBool b => SBool b | 
 (* cdata_richcompare(v, w, op); v is a cdata *)
 Definition cdata_richcompare (v w : value) (op : cmpop) : slotres :=
   match v, w with
-  | VPtr _ a, VPtr _ b => SBool (zcmp op a b)                 (* v_is_ptr && w_is_ptr *)
+  | VPtr _ a, VPtr _ b => SBool (ptr_cmp ptr_branch op a b)   (* v_is_ptr && w_is_ptr: the block as it is
+                                                                  in the source now (C17/Gen.v) *)
   | VPtr _ _, _ => SNotImpl                                   (* v_is_ptr || w_is_ptr *)
   | _, VPtr _ _ => SNotImpl
   | VPrim _ cv, _ =>
